@@ -148,7 +148,8 @@ CHECKS["C10"] = dict(
           "generation with the key's seed; (X5) cache scope typestate: a possibly attached cache reaches tree routines only with the caller's own identity, the root "
           "tree, or key-vector element 0 (first loop iteration, detached on every path back; the key builder detaches before pushing a second level; the "
           "bottom-level signer's key comes from that builder with the same cache variable); (X6) panic-freedom engine on every function touching the buffer or the "
-          "cache, aux bytes and length unknown. NOT decided: that cached nodes equal recomputed nodes (output equality)."),
+          "cache, aux bytes and length unknown; (X7) the MAC writer hashes every cache slot; (X8) the MAC key and the keyed-hash preimages are the "
+          "reference ones (closed world over the aux routines). NOT decided: that cached nodes equal recomputed nodes (output equality)."),
     note="Necessary conditions of transparency plus the authentication gate. Trusts ct_eq / slice equality comparing whole equal-length slices and slice::fill.",
     technique="who-may-construct enumeration, guard facts with edge removal, whole-value provenance, dominance, attached/detached typestate dataflow, panic-freedom engine (abstract interpretation)",
     design_ref="DESIGN.md section 3 / C10",
@@ -203,7 +204,7 @@ CHECKS["C08"] = dict(
           "0xff@22 || seed@23 hashed as the whole 55-byte block, the top-seed block with D_TOPSEED and which = 0/1/2, the chain-start derivation; (K2) derivation constants "
           "evaluated from the source; (K3) child seed = first, child I = first 16 bytes of the second output of one derivation object with index 0xfffe and the parent leaf; "
           "(K4) the key blob serialiser appends u64-BE counter || 8 parameter bytes || seed and the parser reads 8, 8, n and decodes big-endian; (K5) parameter byte = "
-          "(LMS << 4) + LM-OTS, decoded with >> 4 and & 0x0f, padding and end marker 0xff; (K6) public-key layout; (K7) every hash implementation returns the first "
+          "(LMS type code << 4) + LM-OTS type code, each nibble decoded through the type-code decoder of its enum, padding and end marker 0xff; (K6) public-key layout; (K7) every hash implementation returns the first "
           "OUTPUT_SIZE bytes of the underlying output. NOT decided: byte identity with the external hash-sigs tool."),
     note="Pins the derivation and encoding of the current tree against the transcribed reference; any consistent change on signer and loader side is still a mismatch with the table.",
     technique="hash-session extraction with interprocedural buffer layouts matched against hash-sigs reference preimages; evaluated constants; expression-DAG rules; writer/reader agreement",
@@ -212,8 +213,10 @@ CHECKS["C08"] = dict(
 
 NOT_APPLICABLE = {
     "C01": ("Round-trip completeness (sign then verify succeeds) is equality of two computations over runtime values "
-            "(message, seed, counter, 6x4x5^L parameter shapes); no dataflow/typestate fact bounds it. Its structural "
-            "clauses are decided under C07/C12; a separate static check would add alarms without power."),
+            "(message, seed, counter, 6x4x5^L parameter shapes); no dataflow/typestate fact bounds it. Re-examined during the build: "
+            "RFC-exactness (decided under C07/C12) is not a necessary condition of C01 (a deviation shared by signer and verifier keeps every "
+            "signature verifying), so reusing those rules would alarm where C01 holds; the only necessary structural condition is agreement of "
+            "signer and verifier, which the suite's round trips already pin for all six hashes. See DESIGN.md 12.1."),
 }
 
 PENDING = {}
